@@ -25,3 +25,5 @@ import Ymq.Props.C04Shape
 #print axioms Ymq.C04Shape.source_named_ok
 #print axioms Ymq.C04Shape.source_fork_ok
 #print axioms Ymq.C04Shape.source_ecm_unit_ok
+#print axioms Ymq.C04Shape.abort_unit_bounded
+#print axioms Ymq.C04Shape.ecm_unit_abort_faithful
